@@ -14,6 +14,7 @@ Print Assumptions C08_unary.
 
 Example C08_unary_nonvacuous : wf (mkM [2; 1] [true; false]) /\ unop_ok (UGrad 2).
 Proof. split; [reflexivity | exact I]. Qed.
+Print Assumptions C08_unary_nonvacuous.
 
 (* --- binary operations between fields on the same mesh: cell-wise AND; otherwise rejected *)
 Theorem C08_binary_and : forall b v1 v2, wf v1 -> wf v2 -> msh v1 = msh v2 ->
@@ -29,6 +30,7 @@ Print Assumptions C08_binary_and.
 Example C08_binary_and_nonvacuous :
   bin_sem BCross (mkM [3] [true; true; false]) (mkM [3] [false; true; true]) = OK (mkM [3] [false; true; false]).
 Proof. reflexivity. Qed.
+Print Assumptions C08_binary_and_nonvacuous.
 
 Theorem C08_binary_rejects_other_mesh : forall b v1 v2, msh v1 <> msh v2 -> bin_sem b v1 v2 = Err ValueE.
 Proof. exact bin_sem_rejects. Qed.
@@ -56,6 +58,7 @@ Example C08_binary_shifted_nonvacuous :
   veval_bin_geo [mkM [2] [true; false]; mkM [2] [true; true]] 1 BAdd (Leaf 0)
     (Map (MRange 0 1 2) (Map (MPad PEdge 0 1 0 false) (Leaf 1))) = Some (OK (mkM [2] [true; false])).
 Proof. split; reflexivity. Qed.
+Print Assumptions C08_binary_shifted_nonvacuous.
 
 (* --- every composition: the model of the code computes exactly the plain reading *)
 Theorem C08_expr : forall env e, Forall wf env -> forall v, veval env e = OK v -> v = sem env e /\ wf v.
@@ -85,6 +88,7 @@ Example C08_expr_nonvacuous :
   veval [mkM [2] [true; false]; mkM [2] [true; true]]
         (Bin BAdd (Un UNeg (Leaf 0)) (Map (MPad PWrap 0 0 0 false) (Leaf 1))) = OK (mkM [2] [true; false]).
 Proof. split; reflexivity. Qed.
+Print Assumptions C08_expr_nonvacuous.
 
 (* --- selection, extraction, padding, resampling, rotation, HDF5/VTK: the result cell reads the
        operand's validity at the cell the index map of the DATA sends it to *)
@@ -110,6 +114,7 @@ Example C08_mapped_nonvacuous :
   inb (map_shape (MPad PReflect 1 5 2 false) [2; 3]) [1; 0] = true /\
   map_idx (MPad PReflect 1 5 2 false) [2; 3] [1; 0] = Some [1; 1].
 Proof. repeat split; reflexivity. Qed.
+Print Assumptions C08_mapped_nonvacuous.
 
 (* one pad call with widths on two axes = the composition of the single-axis gathers, in either order *)
 Theorem C08_pad_two_axes_is_composition : forall (V : Type) md sh a ba aa b bb ab (fill : V) (src : idx -> V) i,
@@ -235,3 +240,4 @@ Print Assumptions C08_norm_valid_is_not_isclose.
 Example C08_norm_nonvacuous :
   (0 <= norm_atol)%Q /\ norm_valid [(3 # 1)%Q; (4 # 1)%Q] = true /\ norm_valid [0%Q; 0%Q] = false.
 Proof. split; [unfold Qle; simpl; lia | split; reflexivity]. Qed.
+Print Assumptions C08_norm_nonvacuous.
